@@ -24,6 +24,10 @@ type Config struct {
 	CaseBudget   time.Duration
 	Trace        bool
 	MaxViolations int
+	// ViolationGrace: once a violation whose label is not a recorded known finding has been found,
+	// the case is explored for at most this much longer (other labels may still turn up), then stopped.
+	ViolationGrace time.Duration
+	KnownLabel     func(label string) bool
 	MapOrders    bool // fork over iteration orders of small maps
 	ForceChoices []int // debugging: replay exactly this choice sequence (one path)
 	ArithFirst bool // arithmetic-heavy harness: queries the incremental core does not decide in 250 ms go straight to cvc5's integer encoding
@@ -90,6 +94,7 @@ type Report struct {
 	Discharged   map[string]int           `json:"discharged"`
 	Violations   []Violation              `json:"violations"`
 	ViolationsN  int                      `json:"violations_total"`
+	StoppedAfterViolation bool           `json:"stopped_after_violation,omitempty"`
 	Covers       map[string]*CoverWitness `json:"covers"`
 	Inconclusive []string                 `json:"inconclusive"`
 	Functions    map[string]string        `json:"functions"`
@@ -106,6 +111,8 @@ type Exec struct {
 	ctx    *smt.Ctx
 	solver *smt.Solver
 	cfg    Config
+
+	firstNewViolation time.Time
 
 	// exploration state (persists across paths)
 	trace   []choicePoint
@@ -517,6 +524,9 @@ func (ex *Exec) addViolation(v Violation) {
 	if len(ex.report.Violations) < ex.cfg.MaxViolations {
 		ex.report.Violations = append(ex.report.Violations, v)
 	}
+	if ex.firstNewViolation.IsZero() && (ex.cfg.KnownLabel == nil || !ex.cfg.KnownLabel(v.Label)) {
+		ex.firstNewViolation = time.Now()
+	}
 }
 
 // assertTerm checks pc ⇒ cond.
@@ -700,6 +710,11 @@ func (ex *Exec) Run(fn *ssa.Function, args []int64) *Report {
 		if !ex.cfg.Deadline.IsZero() && time.Now().After(ex.cfg.Deadline) {
 			ex.report.Truncated = true
 			ex.inconclusive("deadline reached before exploration finished")
+			break
+		}
+		if ex.cfg.ViolationGrace > 0 && !ex.firstNewViolation.IsZero() && time.Since(ex.firstNewViolation) > ex.cfg.ViolationGrace {
+			ex.report.Truncated = true
+			ex.report.StoppedAfterViolation = true
 			break
 		}
 		if ex.inSync && ex.tpos < ex.syncLen {
